@@ -1105,6 +1105,10 @@ func (p *Parser) ParseFunctionCall() (*ast.FunctionCallStatement, error) {
 		return nil, errors.WithStack(err)
 	}
 	stmt.Arguments = args
+	if len(args) == 0 {
+		// comments inside the empty parenthesis
+		SwapLeadingInfix(p.curToken, stmt.Meta)
+	}
 
 	if !p.PeekTokenIs(token.SEMICOLON) {
 		return nil, errors.WithStack(MissingSemicolon(p.curToken))
